@@ -14,11 +14,15 @@ macro_rules! properties {
                 $($id => $m::run(ctx),)*
                 _ => return false,
             }
+            history::run(ctx);
             true
         }
         /// Replay one case; None = unknown sub-check or undecodable case.
         pub fn replay(ctx: &mut Ctx, sub: &str, case: &Value) -> Option<Result<(), String>> {
             let sub = sub.trim_start_matches("regress/");
+            if sub == "call_history_generic" {
+                return Some(ctx.run_one(&history::SUB_HIST, &<history::HistCase as Case>::decode(case)?));
+            }
             match ctx.prop {
                 $($id => $m::replay(ctx, sub, case),)*
                 _ => None,
@@ -26,6 +30,8 @@ macro_rules! properties {
         }
     };
 }
+
+pub mod history;
 
 properties! {
     "C01" => c01,
